@@ -301,43 +301,47 @@ def run_case(case):
                         rd = None
                     delivered.append((seq, f, rd))
     req_seq = [(seq, k) for seq, what, k in gate_events if what == "req"]
-    for i in range(len(req_seq) - 1):
-        s_i, k_i = req_seq[i]
-        s_n, k_n = req_seq[i + 1]
-        if k_i not in C.STEPS or C.STEPS.index(k_i) >= 5 or k_n != C.STEPS[C.STEPS.index(k_i) + 1]:
-            continue
-        ok = False
-        for seq, f, rd in delivered:
-            if s_i < seq < s_n:
-                # (a truthful frame of the awaited kind counts whoever it is addressed to:
-                # the client cannot tell it from the answer and the content is the same)
-                if AWAITED[k_i](rd):
-                    ok = True
-                # AT5 zero-zone echo (addressed to the client) counts as the names answer
-                # (AT4: the empty names answer of a console without groups is the same
-                # bytes as a request)
-                if isinstance(rd, dict) and rd.get("request") is not None \
-                        and k_i in ("names_request",) and f.to == R.ADDR_CLIENT \
-                        and not inst["zones"]:
-                    ok = True
-        if not ok:
-            v("next-request-before-answer-delivered", step=k_i, next=k_n)
-    # the last step has no next request: init() may only return True once its answer is in
-    last = [sq for sq, k in req_seq if k == "zone_status_request"]
-    if out["ret"] is True and last:
-        s_i = last[0]
-        ok = False
-        for seq, f, rd in delivered:
-            if s_i < seq <= out["ret_seq"]:
-                if AWAITED["zone_status_request"](rd):
-                    ok = True
-                if isinstance(rd, dict) and rd.get("request") is not None \
-                        and f.to == R.ADDR_CLIENT and not inst["zones"]:
-                    ok = True
-        if ok:
-            obs["last_step_gated"] = 1
+
+    def accepts(k, f, rd):
+        # (a truthful frame of the awaited kind counts whoever it is addressed to: the client
+        # cannot tell it from the answer and the content is the same)
+        if AWAITED[k](rd):
+            return True
+        # AT5 zero-zone echo (addressed to the client) counts as the names / zone status
+        # answer (AT4: the empty answer of a console without groups is the same bytes as a
+        # request)
+        return (isinstance(rd, dict) and rd.get("request") is not None
+                and k in ("names_request", "zone_status_request") and f.to == R.ADDR_CLIENT
+                and not inst["zones"])
+
+    # The client handles frames in stream order and enters step k the moment it handles the
+    # frame that ended step k-1 (the request goes out from that very handler). So the frame
+    # that ends step k is the first acceptable one BEHIND the previous trigger in the stream -
+    # it may have reached the socket before request k was even written - and it must have
+    # arrived completely before request k+1 is seen (before init() returned, for the last).
+    six_reqs = []
+    for sq, k in req_seq:
+        if len(six_reqs) < 6 and k == C.STEPS[len(six_reqs)]:
+            six_reqs.append((sq, k))
+    trigger = -1
+    for i, (s_i, k_i) in enumerate(six_reqs):
+        if i + 1 < len(six_reqs):
+            bound, last_step = six_reqs[i + 1][0], False
+        elif i == 5 and out["ret"] is True:
+            bound, last_step = out["ret_seq"] + 1, True
         else:
-            v("init-true-before-last-answer-delivered", t=out["t"])
+            break
+        cand = [j for j, (seq, f, rd) in enumerate(delivered)
+                if j > trigger and seq < bound and accepts(k_i, f, rd)]
+        if not cand:
+            if last_step:
+                v("init-true-before-last-answer-delivered", t=out["t"])
+            else:
+                v("next-request-before-answer-delivered", step=k_i, next=six_reqs[i + 1][1])
+            break
+        trigger = cand[0]
+        if last_step:
+            obs["last_step_gated"] = 1
     # ---- return value
     if must_fail and not race:
         if ret is not False:
